@@ -92,6 +92,28 @@ CHECKS = {
 NOT_YET = {
 }
 
+# stages added after the first registration (appended to the level text; details in DESIGN.md §0.2, §0.6, §10)
+ADDENDA = {
+ "C01": " Arms of the generator: wide-extent workloads (values of 200-600 blocks), keys of 65 535-102 400 bytes.",
+ "C02": " Workload families: free-form, wide batches (60-300 records in one shard), wide extents (200-600 blocks), mass deletions (> 1024 retirements in one flush).",
+ "C03": " Workload families: free-form, wide batches (60-300 records in one shard), wide extents (200-600 blocks), mass deletions (> 1024 retirements in one flush, crash points around every fsync of that flush with the most recent write torn).",
+ "C04": " Two further stages: codec-synthesised images forcing every repair kind, and mass-retirement images (380-1250 duplicated keys of 1-3 blocks, so one recovery spans several journal transactions) cut after/before every recovery fsync with torn marker writes; this stage found and led to the repair of a genuine defect (known_findings.jsonl).",
+ "C05": " Further stages: fill cycles, wide-extent workloads, exact partition right after recovering crash images and synthesised images.",
+ "C06": " Device sizes that are not a whole number of blocks are part of both parts.",
+ "C07": " Sub-campaign C07M: explicit timestamps ahead of the wall clock published while helper threads draw automatic timestamps in the same clock shard; at quiescence an automatic call on the key must be accepted and stamped above the explicit one.",
+ "C09": " Fault sites include record-only and marker-only writes; generators include bursts (> 1024 entries pending in one shard) and chains of unwritten generations behind an acknowledged one.",
+ "C10": " Added oracle: no retirement marker's announced span covers a live record. Added stage: sparse devices beyond 4 GiB with records before, across and beyond byte offset 2^32.",
+ "C11": " Further stages: recovery of codec-synthesised images against an independent newest-wins/expiry oracle, mass-retirement restarts, sweeper racing writers (engine D).",
+ "C12": " Further stages: budgeted stores with explicit future timestamps on refused calls; automatic-write probe right after recovering crash images and synthesised images whose timestamps lie ahead of the clock.",
+ "C13": " Keys of 65 535-102 400 bytes are part of the generator.",
+ "C14": " One case in twenty queries ranges over 257-620 index entries with limits around 256/512.",
+ "C15": " Disturbances: source mtime touched, a foreign file planted at the destination while the migration runs; mass sources (hundreds of duplicated keys).",
+ "C17": " Image classes include files whose first 255-513 blocks are zero with foreign bytes behind them (the blank-device scan works in 256-block chunks).",
+ "C18": " One program in four: several flush() callers on a device whose record writes fail 3-9 times in a row again and again; hangs are re-run alone up to three times.",
+ "C19": " Further phases: writes waiting for space on a full device until accepted deletes reclaim it; bursts of 64-200 KiB values (bytes, not entries, fill the shard buffer).",
+ "C20": " A last stage runs uninstrumented: DiskIO::batch_write sequences on a slow device (Unix datagram socket pair) with rejected writes and generated stalls; the device must only ever receive submitted bytes (reads done by the kernel are invisible to AddressSanitizer).",
+}
+
 def main():
     checks = []
     for pid in sorted(CHECKS):
@@ -103,7 +125,7 @@ def main():
             "evidence_file": f"/verif/evidence/{pid}.json",
             "replay_cmd_template": f"./check {pid} --replay {{path}}",
             "engine": c["engine"],
-            "level_claimed": {"category": c["cat"], "text": c["text"], "design_ref": c["ref"]},
+            "level_claimed": {"category": c["cat"], "text": c["text"] + ADDENDA.get(pid, ""), "design_ref": c["ref"]},
             "level_note": c["note"],
             "technique": c["technique"],
         })
@@ -113,9 +135,9 @@ def main():
     ENGINE_INFO = {
         "seq": ("harness/src/seq.rs", "single-threaded call sequences vs. reference model, snapshot, independent codec (proptest)"),
         "crash": ("harness/src/crash.rs", "device-write trace -> crash images (prefix x subset x tearing) -> reopen (proptest workloads, enumerated images)"),
-        "fault": ("harness/src/fault.rs", "per-I/O-call fault plans over generated workloads"),
+        "fault": ("harness/src/props/c09.rs", "per-I/O-call fault plans over generated workloads"),
         "conc": ("harness/src/conc.rs", "steered multi-threaded programs with history oracles"),
-        "unit": ("harness/src/unit.rs", "component-level generated sequences / images"),
+        "unit": ("harness/src/props/ (c06.rs, c15.rs, c16unit.rs, c17.rs, synthrec.rs, bigdev.rs, c20k.rs)", "component-level generated sequences / images"),
     }
     manifest = {
         "version": 1,
